@@ -44,8 +44,14 @@ def gen_topic(rng: random.Random, tier: str) -> dict:
             ops.append({"t": t, "op": "sub", "c": rng.randrange(n_subs), "replay": rng.random() < 0.4})
         else:
             ops.append({"t": t, "op": "unsub", "c": rng.randrange(n_subs)})
+    names = [f"s{i}" for i in range(n_subs)]
+    if n_subs > 1 and rng.random() < 0.3:
+        # replicas: distinct subscriber entities that carry the same name
+        for i in rng.sample(range(n_subs), rng.randint(2, n_subs)):
+            names[i] = "replica"
     return {
         "n_subscribers": n_subs,
+        "names": names,
         "initial_subs": [c for c in range(n_subs) if rng.random() < 0.6],
         "latency": latency,
         "retain": retain,
@@ -56,9 +62,12 @@ def gen_topic(rng: random.Random, tier: str) -> dict:
 
 
 class _Sub(Entity):
-    def __init__(self, name, log):
+    """Subscriber entity; `uid` is the harness-side identity (the entity object), `name` may be shared with others."""
+
+    def __init__(self, name, log, uid=None):
         super().__init__(name)
         self.log = log
+        self.uid = uid or name
 
     def handle_event(self, event):
         if event.event_type != "topic_message":
@@ -67,7 +76,7 @@ class _Sub(Entity):
         self.log.append(
             {
                 "t": self.now.nanoseconds,
-                "c": self.name,
+                "c": self.uid,
                 "pid": payload.context.get("pid") if payload is not None else None,
                 "replay": bool(event.context.get("is_replay")),
             }
@@ -103,8 +112,10 @@ class _TopicDriver(Entity):
                 return topic.publish_sync(msg)
             return self._gen_publish(msg)
         c = ctx["subs"][op["c"]]
-        before = c in topic.subscribers
-        ctx["change_instants"].setdefault(c.name, set()).add(now)
+        # client-boundary truth: a subscribe() that returned makes this entity an active subscriber,
+        # an unsubscribe() makes it inactive - whatever other entities (even of the same name) did
+        before = ctx["active"].get(c.uid, False)
+        ctx["change_instants"].setdefault(c.uid, set()).add(now)
         if kind == "sub":
             try:
                 evs = topic.subscribe(c, replay_history=bool(op.get("replay")))
@@ -114,13 +125,15 @@ class _TopicDriver(Entity):
                 ctx["res"].count("subscribes_refused")
                 return None
             if op.get("replay"):
-                ctx["replays"].append({"t": now, "c": c.name, "n": len(evs)})
+                ctx["replays"].append({"t": now, "c": c.uid, "n": len(evs)})
+            after = True
         else:
             topic.unsubscribe(c)
             evs = None
-        after = c in topic.subscribers
+            after = False
+        ctx["active"][c.uid] = after
         if before != after:
-            ctx["changes"][c.name].append((now, after))
+            ctx["changes"][c.uid].append((now, after))
             ctx["n_changes"] += 1
         return evs
 
@@ -145,7 +158,9 @@ def run_topic(case: dict) -> Result:
     if case.get("retain"):
         topic.set_retain_messages(True, max_history=int(case.get("max_history", 100)))
     log = []
-    subs = [_Sub(f"s{i}", log) for i in range(case["n_subscribers"])]
+    names = case.get("names") or [f"s{i}" for i in range(case["n_subscribers"])]
+    subs = [_Sub(names[i], log, uid=f"s{i}") for i in range(case["n_subscribers"])]
+    shared_name_uids = {x.uid for x in subs if sum(1 for y in subs if y.name == x.name) > 1}
     ctx = {
         "topic": topic,
         "subs": subs,
@@ -153,7 +168,8 @@ def run_topic(case: dict) -> Result:
         "pubs": [],
         "payloads": {},
         "pub_instants": set(),
-        "changes": {s.name: [] for s in subs},
+        "changes": {s.uid: [] for s in subs},
+        "active": {},
         "change_instants": {},
         "replays": [],
         "n_changes": 0,
@@ -164,7 +180,8 @@ def run_topic(case: dict) -> Result:
         if i < len(subs):
             try:
                 topic.subscribe(subs[i])
-                initial.add(subs[i].name)
+                initial.add(subs[i].uid)
+                ctx["active"][subs[i].uid] = True
             except RuntimeError:
                 pass
     ops = sorted(case["ops"], key=lambda o: o["t"])
@@ -193,33 +210,44 @@ def run_topic(case: dict) -> Result:
     for label, pubs_l in by_label.items():
         mode_l = "+".join(sorted({q["mode"] for q in pubs_l}))
         for s in subs:
-            if any(q["t"] in ctx["change_instants"].get(s.name, ()) for q in pubs_l):
+            if any(q["t"] in ctx["change_instants"].get(s.uid, ()) for q in pubs_l):
                 res.count("ties_skipped")
                 continue
-            want = sum(1 for q in pubs_l if _active_at(ctx["changes"][s.name], s.name in initial, q["t"]))
-            times = got.get((label, s.name), [])
+            want = sum(1 for q in pubs_l if _active_at(ctx["changes"][s.uid], s.uid in initial, q["t"]))
+            times = got.get((label, s.uid), [])
             res.count("fanout_pairs_checked", len(pubs_l))
             expected_total += want
             x = min(q["t"] for q in pubs_l)
             if len(times) < want:
-                missing.extend([(label, s.name, mode_l)] * (want - len(times)))
+                missing.extend([(label, s.uid, mode_l)] * (want - len(times)))
             elif len(times) > want and want > 0:
                 res.add(
                     "delivered-more-than-once",
                     "Topic",
                     f"mode={mode_l}",
-                    f"payload {label} published {want} times while {s.name} was active reached it {len(times)} times at {times}",
+                    f"payload {label} published {want} times while {s.uid} was active reached it {len(times)} times at {times}",
                 )
             elif len(times) > want:
                 res.add(
                     "delivered-to-inactive-subscriber",
                     "Topic",
                     f"mode={mode_l}",
-                    f"payload {label} published at {[q['t'] for q in pubs_l]}ns reached {s.name} which was not an active subscriber then",
+                    f"payload {label} published at {[q['t'] for q in pubs_l]}ns reached {s.uid} which was not an active subscriber then",
                 )
             if times and min(times) < x:
                 res.add("delivered-before-publish", "Topic", f"mode={mode_l}", f"payload {label} at {min(times)} < {x}")
-    if missing:
+    if missing and any(u in shared_name_uids for _, u, _ in missing) and not discarded:
+        lonely = sorted({u for _, u, _ in missing})
+        res.add(
+            "publish-never-received",
+            "Topic",
+            "subscriber-entities-share-a-name",
+            f"{len(missing)} of {expected_total} (publish, active subscriber) pairs never delivered; subscriber entities {lonely} "
+            f"(names {[x.name for x in subs if x.uid in lonely]}) subscribed successfully but got nothing; topic.subscriber_count="
+            f"{topic.subscriber_count}, harness counts {sum(1 for v in ctx['active'].values() if v)} active entities",
+            {"missing": missing[:6]},
+        )
+    elif missing:
         modes = sorted({m for _, _, m in missing})
         if L_ns > 0 and len(discarded) >= len(missing) and all(m in ("event", "gen") for m in modes):
             shape = "latency>0/delivery-event-stamped-before-latency-discarded-by-engine"
